@@ -176,7 +176,7 @@ def total_entries(prog):
     return out
 
 
-def audit(ctx, prog, entries, residue, label):
+def audit(ctx, prog, entries, residue, label, extra=()):
     """every panic edge in the call-graph closure of `entries` is discharged automatically or by a reviewed residue entry"""
     cl = prog.closure(entries)
     n_edges = 0
@@ -190,6 +190,10 @@ def audit(ctx, prog, entries, residue, label):
             fkey = re.sub(r"^internals::", "", f.path)
             key = "%s: %s | %s | %s" % (label, fkey, e["kind"], desc)
             d = auto_discharge(f, sy, e)
+            for x in extra:
+                if d:
+                    break
+                d = x(prog, f, sy, e, cl)
             loc = f.loc(e["t"]["sp"])
             if d:
                 ctx.ob(R, key, True, "%s: %s" % d, loc)
@@ -346,3 +350,104 @@ def side_index_counts_consumed(prog, f, sy, e):
         if not ok:
             return False, "index incremented outside the Some arm of next() (bb%d)" % blk
     return True, "`index` is 0 or +1 per item yielded by the iterator over *bytes"
+
+
+# ---- discharges specific to the "never panics for any content" entry points ---------------------------------------
+
+def under_is_valid(f, sy, blk):
+    """block is reached only when `<..>::is_valid(self)` returned true"""
+    for c in path_conds(f, sy, blk):
+        a = bool_atom(c)
+        if a and a[0] == "truth" and a[2] is True:
+            e = strip(a[1])
+            if e[0] == "call" and e[1].endswith("::is_valid") and e[2] and is_param(strip(e[2][0]), "self"):
+                return True
+    return False
+
+
+def d_valid_arm(prog, f, sy, e, cl):
+    """D4a: edge lies on the `if self.is_valid()` arm of a Debug impl (or in a closure only created there)"""
+    if "{closure" in f.path:
+        parent = prog.get(f.path.rsplit("::{closure", 1)[0])
+        if parent is None:
+            return None
+        ps = Sym(parent)
+        sites = []
+        for i, j, s in parent.stmts():
+            if s["s"] == "assign" and s["rv"]["r"] == "agg" and s["rv"]["kind"].get("def") == f.path:
+                sites.append(i)
+        if sites and all(under_is_valid(parent, ps, b) for b in sites):
+            return ("D4", "closure is only created on the `self.is_valid()` arm of %s: symbols < 64 and lengths within capacity hold there" % parent.short.split("::")[-2])
+        return None
+    if under_is_valid(f, sy, e["blk"]):
+        return ("D4", "on the `self.is_valid()` arm: lengths within capacity, symbols < 64 (ASCII table output), so slicing/from_utf8 cannot fail")
+    return None
+
+
+def d_len_guard_at_callers(prog, f, sy, e, cl):
+    """D4b: verify_block_hash_internal slices by `blockhash_len`; every call chain inside the closure passes a length
+    guarded by a dominating `len <= capacity` at the call site"""
+    if not f.path.endswith("algorithms::verify_block_hash_internal"):
+        return None
+    inside = {g.path for g in cl}
+    todo = [(f.path, 2)]  # (function, index of the length parameter)
+    seen = set()
+    while todo:
+        path, pi = todo.pop()
+        if (path, pi) in seen:
+            continue
+        seen.add((path, pi))
+        for g, i, t in call_sites(prog, path):
+            if g.path not in inside:
+                continue
+            gs = Sym(g)
+            arg = strip(gs.operand(t["args"][pi - 1]))
+            if arg[0] == "param":
+                todo.append((g.path, arg[1]))
+                continue
+            ok = False
+            for c in path_conds(g, gs, i):
+                a = bool_atom(c)
+                if a and a[0] in ("Le", "Lt") and canon(strip(a[1])) == canon(arg) and strip(a[2])[0] == "const":
+                    ok = True
+            if not ok:
+                return None
+    return ("D4", "every call chain inside the closure passes a length dominated by `len <= capacity` (short-circuit in is_valid)")
+
+
+def d_rle_validator(prog, f, sy, e, cl):
+    """D4c: is_valid_rle_block_for_block_hash indexes blockhash at pos-2..=pos only after `pos >= 2 && pos < blockhash_len`,
+    and is called only after norm_hash.is_valid() (so blockhash_len <= SZ_BH)"""
+    if not f.path.endswith("algorithms::is_valid_rle_block_for_block_hash"):
+        return None
+    have_lt = have_ge = False
+    for c in path_conds(f, sy, e["blk"]):
+        a = bool_atom(c)
+        if not a or a[0] not in ("Lt", "Ge"):
+            continue
+        x, y = strip(a[1]), strip(a[2])
+        if a[0] == "Lt" and is_param(y, "blockhash_len"):
+            have_lt = True
+        if a[0] == "Ge" and y[0] == "bin" and y[1] == "Sub":
+            have_ge = True
+        if a[0] == "Ge" and y[0] == "cast" or (a[0] == "Ge" and const_value(y) is not None):
+            have_ge = True
+    if not (have_lt and have_ge):
+        return None
+    for g, i, t in call_sites(prog, f.path):
+        gs = Sym(g)
+        ok = False
+        for c in path_conds(g, gs, i):
+            a = bool_atom(c)
+            if a and a[0] == "truth" and a[2] is True and strip(a[1])[0] == "call" and strip(a[1])[1].endswith("::is_valid"):
+                ok = True
+        if not ok:
+            return None
+    return ("D4", "index is between pos-2 and pos with 2 <= pos < blockhash_len (dominating guards) and every caller first requires norm_hash.is_valid() (blockhash_len <= SZ_BH)")
+
+
+def totality_of_validity(ctx, prog):
+    ents = total_entries(prog)
+    n, nb = audit(ctx, prog, ents, {}, "valid", extra=(d_valid_arm, d_len_guard_at_callers, d_rle_validator))
+    ctx.floor(R, len(ents), 10, "is_valid / full_eq / Debug entry points")
+    ctx.floor(R, n, 12, "panic edges in their closure")
